@@ -34,7 +34,8 @@ def main():
     sys.path.insert(0, REPO)
     sys.path.insert(0, VERIF)
     from vf import engine
-    from vf.runner import from_jsonable
+    from vf.runner import from_jsonable, quiet_twisted
+    quiet_twisted()
     mod = importlib.import_module('vf.props.' + d['prop'].lower())
     engine.TWIN = bool(d.get('twin'))
     params = from_jsonable(d['params'], tuples=False)
